@@ -10,7 +10,6 @@ use pumpkin_solver::results::OptimisationResult;
 use pumpkin_solver::results::SatisfactionResult;
 use pumpkin_solver::results::SatisfactionResultUnderAssumptions as SRA;
 use pumpkin_solver::results::SolutionReference;
-use pumpkin_solver::variables::TransformableVariable;
 use pumpkin_solver::Solver;
 use rand::rngs::SmallRng;
 use rand::Rng;
@@ -807,20 +806,111 @@ fn all_dom_exclusive(m: &Model, x: &MPred, y: &MPred) -> bool {
 // ---------------------------------------------------------------------------------------------
 // C12: root bounds
 
+/// Reads the root bounds of every created variable and of the views over created variables and
+/// compares them with the hull of `sols` (the solutions of the prefix model), the declared domains
+/// and the bounds seen before. Returns false after a failure.
+#[allow(clippy::too_many_arguments)]
+fn c12_check_bounds(
+    s: &Solver,
+    m: &Model,
+    xs: &[X],
+    views: &[View],
+    sols: &BTreeSet<Vec<i64>>,
+    prev: &mut Vec<Option<(i64, i64)>>,
+    at: &str,
+    out: &mut Outcome,
+) -> bool {
+    let mut changed = false;
+    for (i, x) in xs.iter().enumerate() {
+        let (lb, ub) = match x {
+            X::I(d) => (s.lower_bound(d) as i64, s.upper_bound(d) as i64),
+            X::B(l) => (s.lower_bound(l) as i64, s.upper_bound(l) as i64),
+        };
+        out.count("bounds_checked", 2);
+        if lb < m.vars[i].lo() || ub > m.vars[i].hi() {
+            out.fail("bound-outside-declared-domain", format!("{at} x{i} in [{lb},{ub}], declared [{},{}]", m.vars[i].lo(), m.vars[i].hi()));
+            return false;
+        }
+        if !sols.is_empty() {
+            let mn = sols.iter().map(|a| a[i]).min().unwrap();
+            let mx = sols.iter().map(|a| a[i]).max().unwrap();
+            if lb > mn || ub < mx {
+                out.fail("bound-excludes-solution", format!("{at} x{i} reported in [{lb},{ub}] but solutions use values {mn}..{mx}"));
+                return false;
+            }
+        }
+        if let X::B(l) = x {
+            if let Some(bv) = s.get_literal_value(*l) {
+                out.count("literal_values_checked", 1);
+                if let Some(a) = sols.iter().find(|a| (a[i] == 1) != bv) {
+                    out.fail("literal-value-excludes-solution", format!("{at} x{i} reported {bv} but {a:?} is a solution"));
+                    return false;
+                }
+            }
+        }
+        if let Some((a0, a1)) = prev[i] {
+            if lb < a0 || ub > a1 {
+                out.fail("bounds-not-monotone", format!("x{i} went from [{a0},{a1}] to [{lb},{ub}] {at}"));
+                return false;
+            }
+            changed |= (a0, a1) != (lb, ub);
+        }
+        prev[i] = Some((lb, ub));
+    }
+    for v in views.iter().filter(|v| v.var < xs.len()) {
+        let av = mk_view(v, xs);
+        let (vl, vu) = (s.lower_bound(&av) as i64, s.upper_bound(&av) as i64);
+        out.count("view_bounds_checked", 2);
+        let d = &m.vars[v.var];
+        let (dl, du) = ((v.s * d.lo() + v.o).min(v.s * d.hi() + v.o), (v.s * d.lo() + v.o).max(v.s * d.hi() + v.o));
+        if vl < dl || vu > du {
+            out.fail("bound-outside-declared-domain", format!("{at} view {v:?} reported in [{vl},{vu}], declared image [{dl},{du}]"));
+            return false;
+        }
+        if !sols.is_empty() {
+            let mn = sols.iter().map(|a| v.val(a)).min().unwrap();
+            let mx = sols.iter().map(|a| v.val(a)).max().unwrap();
+            if (vl as i128) > mn || (vu as i128) < mx {
+                out.fail("bound-excludes-solution", format!("{at} view {v:?} reported in [{vl},{vu}] but solutions give {mn}..{mx}"));
+                return false;
+            }
+        }
+    }
+    if changed {
+        out.count("tightening_steps", 1);
+    }
+    true
+}
+
+/// Three shapes by the case's sub seed: (0) all variables first, then the postings; (1) every variable
+/// is created only just before the first constraint that mentions it (the remaining ones at the end);
+/// (2) as (1), and between postings the solver is asked to solve (satisfy, satisfy interrupted after a
+/// few polls, satisfy under assumptions): the bounds reported once it is back at the root still have
+/// to enclose every solution of the prefix model and may only have tightened.
 pub fn run_c12(case: &Case) -> Outcome {
     let m = &case.model;
     let mut out = Outcome::new(m);
     let mut r = SmallRng::seed_from_u64(case.sub);
     let seed = r.gen();
     let views: Vec<View> = (0..3).map(|_| gen::gen_view(&mut r, m, false, true)).collect();
+    let shape = [0usize, 0, 1, 2, 2][r.gen_range(0..5)];
     let res = guard(|| {
         let mut out = Outcome::default();
+        out.cover(format!("shape:{}", ["vars-first", "vars-lazy", "vars-lazy+solves"][shape]));
         let mut s = Solver::with_options(OptSpec::default_with_seed(seed).to_options());
-        let xs = new_vars(&mut s, m, 0, false);
-        let mut prev: Option<Vec<(i64, i64)>> = None;
+        let n = m.vars.len();
+        let mut xs: Vec<X> = if shape == 0 { new_vars(&mut s, m, 0, false) } else { vec![] };
+        let mut prev: Vec<Option<(i64, i64)>> = vec![None; n];
         for upto in 0..=m.cons.len() {
             if upto > 0 {
                 let c = &m.cons[upto - 1];
+                let need = scope_r(c).into_iter().max().map_or(0, |x| x + 1);
+                if need > xs.len() {
+                    let from = xs.len();
+                    let part = Model { vars: m.vars[..need].to_vec(), cons: vec![] };
+                    xs.extend(new_vars(&mut s, &part, from, false));
+                    out.count("variables_created_between_postings", (need - from) as u64);
+                }
                 if post_con(&mut s, &xs, c, None).is_err() {
                     out.count("post_errors", 1);
                     if !m.enumerate_prefix(upto).is_empty() {
@@ -832,74 +922,119 @@ pub fn run_c12(case: &Case) -> Outcome {
                     return out;
                 }
             }
+            if upto == m.cons.len() && xs.len() < n {
+                let from = xs.len();
+                xs.extend(new_vars(&mut s, m, from, false));
+            }
             let sols = m.enumerate_prefix(upto);
-            let mut cur = vec![];
-            for (i, x) in xs.iter().enumerate() {
-                let (lb, ub) = match x {
-                    X::I(d) => (s.lower_bound(d) as i64, s.upper_bound(d) as i64),
-                    X::B(l) => (s.lower_bound(l) as i64, s.upper_bound(l) as i64),
-                };
-                cur.push((lb, ub));
-                out.count("bounds_checked", 2);
-                if lb < m.vars[i].lo() || ub > m.vars[i].hi() {
-                    out.fail("bound-outside-declared-domain", format!("after {upto} constraints x{i} in [{lb},{ub}], declared [{},{}]", m.vars[i].lo(), m.vars[i].hi()));
-                    return out;
-                }
-                if !sols.is_empty() {
-                    let mn = sols.iter().map(|a| a[i]).min().unwrap();
-                    let mx = sols.iter().map(|a| a[i]).max().unwrap();
-                    if lb > mn || ub < mx {
-                        out.fail(
-                            "bound-excludes-solution",
-                            format!("after {upto} constraints x{i} reported in [{lb},{ub}] but solutions use values {mn}..{mx}"),
-                        );
-                        return out;
+            if !c12_check_bounds(&s, m, &xs, &views, &sols, &mut prev, &format!("after {upto} constraints"), &mut out) {
+                return out;
+            }
+            out.count("prefixes_checked", 1);
+            if shape == 2 && !xs.is_empty() && r.gen_bool(0.5) {
+                let kind = r.gen_range(0..3);
+                let mut brancher = s.default_brancher();
+                let prefix_ok = |a: &[i64]| m.cons[..upto].iter().all(|c| holds_r(c, a));
+                // variables that do not exist yet are not constrained by the prefix
+                let full = |a: Vec<i64>| -> Vec<i64> { a.into_iter().chain(m.vars[xs.len()..].iter().map(|v| v.lo())).collect() };
+                let mut dead = false;
+                match kind {
+                    0 | 1 => {
+                        let stop = if kind == 1 { Some(r.gen_range(0..20u64)) } else { None };
+                        let mut t = StopAt::new(stop, Budget::for_model(m).left);
+                        out.cover(if kind == 1 { "between:satisfy-interrupted" } else { "between:satisfy" });
+                        match s.satisfy(&mut brancher, &mut t) {
+                            SatisfactionResult::Satisfiable(sol) => match read_solution(&sol, &xs) {
+                                Ok(a) => {
+                                    if !prefix_ok(&full(a.clone())) {
+                                        out.fail("solution-violates-model", format!("solve after {upto} constraints returned {a:?}"));
+                                        return out;
+                                    }
+                                }
+                                Err(e) => {
+                                    out.fail("partial-solution", e);
+                                    return out;
+                                }
+                            },
+                            SatisfactionResult::Unsatisfiable => {
+                                if !sols.is_empty() {
+                                    out.fail("unsat-but-satisfiable", format!("solve after {upto} constraints: Unsatisfiable, the prefix model has {} solutions", sols.len()));
+                                    return out;
+                                }
+                                dead = true;
+                            }
+                            SatisfactionResult::Unknown => {
+                                if !t.fired {
+                                    out.fail("budget-exhausted", format!("solve after {upto} constraints: Unknown without a firing termination condition"));
+                                    return out;
+                                }
+                                out.count("solves_interrupted", 1);
+                            }
+                        }
                     }
-                }
-                if let X::B(l) = x {
-                    if let Some(bv) = s.get_literal_value(*l) {
-                        out.count("literal_values_checked", 1);
-                        if let Some(a) = sols.iter().find(|a| (a[i] == 1) != bv) {
-                            out.fail("literal-value-excludes-solution", format!("after {upto} constraints x{i} reported {bv} but {a:?} is a solution"));
-                            return out;
+                    _ => {
+                        let k = r.gen_range(1..=2);
+                        let asm: Vec<MPred> = (0..k)
+                            .map(|_| {
+                                let var = r.gen_range(0..xs.len());
+                                let d = &m.vars[var];
+                                MPred { var, k: [PK::Ge, PK::Le, PK::Eq, PK::Ne][r.gen_range(0..4)], v: r.gen_range(d.lo()..=d.hi()) }
+                            })
+                            .collect();
+                        if asm.len() == 2 && asm[0].var == asm[1].var {
+                            // a directly contradictory pair is rejected by a documented panic
+                            let d = &m.vars[asm[0].var];
+                            if !(d.lo()..=d.hi()).any(|v| asm[0].holds_val(v) && asm[1].holds_val(v)) {
+                                continue;
+                            }
+                        }
+                        let preds: Vec<_> = asm.iter().map(|p| from_mpred(p, &xs)).collect();
+                        let mut t = StopAt::new(None, Budget::for_model(m).left);
+                        out.cover("between:assumptions");
+                        match s.satisfy_under_assumptions(&mut brancher, &mut t, &preds) {
+                            SRA::Satisfiable(sol) => match read_solution(&sol, &xs) {
+                                Ok(a) => {
+                                    let a = full(a);
+                                    if !prefix_ok(&a) || !asm.iter().all(|p| p.holds(&a)) {
+                                        out.fail("solution-violates-model", format!("solve under {asm:?} after {upto} constraints returned {a:?}"));
+                                        return out;
+                                    }
+                                }
+                                Err(e) => {
+                                    out.fail("partial-solution", e);
+                                    return out;
+                                }
+                            },
+                            SRA::UnsatisfiableUnderAssumptions(_) => {
+                                if let Some(a) = sols.iter().find(|a| asm.iter().all(|p| p.holds(a))) {
+                                    out.fail("unsat-but-satisfiable", format!("under {asm:?} after {upto} constraints: unsatisfiable under assumptions but {a:?} is a solution"));
+                                    return out;
+                                }
+                            }
+                            SRA::Unsatisfiable => {
+                                if !sols.is_empty() {
+                                    out.fail("unsat-but-satisfiable", format!("under {asm:?} after {upto} constraints: Unsatisfiable, the prefix model has {} solutions", sols.len()));
+                                    return out;
+                                }
+                                dead = true;
+                            }
+                            SRA::Unknown => {
+                                out.fail("budget-exhausted", format!("solve under assumptions after {upto} constraints: Unknown"));
+                                return out;
+                            }
                         }
                     }
                 }
-            }
-            for v in &views {
-                let av = mk_view(v, &xs);
-                let (vl, vu) = (s.lower_bound(&av) as i64, s.upper_bound(&av) as i64);
-                out.count("view_bounds_checked", 2);
-                let d = &m.vars[v.var];
-                let (dl, du) = ((v.s * d.lo() + v.o).min(v.s * d.hi() + v.o), (v.s * d.lo() + v.o).max(v.s * d.hi() + v.o));
-                if vl < dl || vu > du {
-                    out.fail("bound-outside-declared-domain", format!("view {v:?} reported in [{vl},{vu}], declared image [{dl},{du}]"));
+                out.count("solves_between_postings", 1);
+                if dead {
+                    // the solver has proven the prefix infeasible; nothing may be added any more
                     return out;
                 }
-                if !sols.is_empty() {
-                    let mn = sols.iter().map(|a| v.val(a)).min().unwrap();
-                    let mx = sols.iter().map(|a| v.val(a)).max().unwrap();
-                    if (vl as i128) > mn || (vu as i128) < mx {
-                        out.fail("bound-excludes-solution", format!("after {upto} constraints view {v:?} reported in [{vl},{vu}] but solutions give {mn}..{mx}"));
-                        return out;
-                    }
+                if !c12_check_bounds(&s, m, &xs, &views, &sols, &mut prev, &format!("after a solve that followed {upto} constraints"), &mut out) {
+                    return out;
                 }
             }
-            if let Some(p) = &prev {
-                for (i, (a, b)) in p.iter().zip(&cur).enumerate() {
-                    if b.0 < a.0 || b.1 > a.1 {
-                        out.fail("bounds-not-monotone", format!("x{i} went from [{},{}] to [{},{}] after posting constraint #{}", a.0, a.1, b.0, b.1, upto - 1));
-                        return out;
-                    }
-                }
-            }
-            if prev.as_ref().is_some_and(|p| *p != cur) {
-                out.count("tightening_steps", 1);
-            }
-            prev = Some(cur);
-            out.count("prefixes_checked", 1);
         }
-        let _ = (xs[0].domain().scaled(1),);
         out
     });
     merge(&mut out, res);
